@@ -69,7 +69,7 @@ def run(chk):
             if r['err'] != 'ValueError':
                 problems.append(('C16:reader:other-argument', r))
         elif not r.get('same_as_path'):
-            problems.append(('C16:reader:' + ('stream' if 'path' not in r['kind'] else r['kind']), r))
+            problems.append(('C16:reader:' + ('stream' if 'path' not in r['kind'] else r['kind']) + (':non-utf8-text' if 'utf16' in r['kind'] else ''), r))
     for w in obs['writers']:
         chk.count('writer:' + w['writer'])
         if w['kind'].startswith('other:'):
@@ -87,7 +87,7 @@ def run(chk):
     chk.extra['reader_runs'] = len(obs['readers'])
     chk.extra['writer_runs'] = len(obs['writers'])
     chk.rule = ('EXHAUSTIVE product: readers {load_minimal_ontology, load_ontology, SimpleHpoaDiseaseLoader.load, SimilarityContainer.from_csv} x sources {path, .gz path, open text '
-                'file, open binary file, StringIO, BytesIO, gzip text stream, gzip binary stream} x {ASCII, non-ASCII content}: result equal to the plain-path result; writers '
+                'file (UTF-8 and UTF-16), open binary file, StringIO, BytesIO, gzip text stream, gzip binary stream} x {ASCII, non-ASCII content}: result equal to the plain-path result; writers '
                 '{SimilarityContainer.to_csv, AnnotationIcContainer.to_csv} x targets {path, .gz path, open text file stream, open binary file stream}: content (timestamp removed) '
                 'equal; 7 non-stream argument types must raise ValueError; the decision taken by the helper for 13 file names and 13 stream objects and looks_like_url / '
                 'looks_gzipped on 170 strings are compared with the model inside Coq')
